@@ -22,7 +22,7 @@ from ..core import Ctx
 REPO = "/repo"
 ROOT = os.path.dirname(os.path.dirname(os.path.dirname(os.path.abspath(__file__))))
 
-MONITOR_OF = {"C02": "assembly", "C03": "assembly", "C04": "bc", "C05": "timestep", "C11": "law", "C12": "fearray", "C14": "stale", "C15": "history",
+MONITOR_OF = {"C02": "assembly", "C03": "assembly", "C04": "bc", "C05": "timestep", "C08": "location", "C11": "law", "C12": "fearray", "C14": "stale", "C15": "history",
               "C17": "phasefield", "C19": "integrate"}
 
 # workloads: ("tests", [paths relative to /repo]) or ("examples", [glob patterns relative to /repo/examples], cap seconds per script)
@@ -52,6 +52,7 @@ PLAN = {
     "C05": {"quick": ["examples-dynamic"], "thorough": ["tests-simulations", "examples-dynamic", "examples-dynamic-long"]},
     "C15": {"quick": ["examples-histories"], "thorough": ["tests-simulations", "examples-histories", "examples-nonlinear", "examples-inelastic", "examples-elastic"]},
     "C17": {"quick": ["examples-phasefield-short"], "thorough": ["tests-simulations", "tests-models", "examples-phasefield"]},
+    "C08": {"quick": [], "thorough": ["tests-fem"]},   # no example script asks for reference coordinates
     "C11": {"quick": ["examples-short"], "thorough": ["tests-models", "tests-simulations", "examples-elastic", "examples-nonlinear"]},
     "C12": {"quick": ["examples-short"], "thorough": ["tests-fem", "tests-models", "tests-simulations", "examples-weakforms", "examples-nonlinear"]},
     "C14": {"quick": ["examples-short"], "thorough": ["tests-simulations", "examples-elastic", "examples-weakforms", "examples-nonlinear", "examples-inelastic"]},
